@@ -1,7 +1,7 @@
 /-
 Round trips of the composite ledger structures: for every well-formed value `v` and any
-trailing bytes `r`, `decode (encode v ++ r) = (canon v, r)` where `canon` is the identity
-except that the code AS IT IS writes a spend/veto commitment suffix twice (`dbl…`).
+trailing bytes `r`, `decode (encode v ++ r) = (v, r)` (a decoded transaction additionally
+records the length of its encoding as its serialized size: `canonTx`).
 -/
 import BytomModel.Lemmas.Codec
 
@@ -32,35 +32,26 @@ theorem decSCFields_enc (sc : SpendCommitment) (h : WFSC sc) (r : Bytes) :
   rw [bind_ok (readVarstr31_enc _ h.prog _), bind_ok (readVarstrList_enc _ h.state _)]
   simp
 
-/-- the spend commitment as the code writes it: suffix twice -/
 theorem decSC_enc (sc : SpendCommitment) (suf : Bytes) (h : WFSC sc)
-    (hl : (encSCFields sc ++ suf ++ suf).length ≤ max31) (r : Bytes) :
-    (decSC (encSC sc suf ++ r)).out = .ok (sc, suf ++ suf) r := by
-  unfold decSC encSC encExt
-  apply readExt_enc' _ _ _ _ _ _ hl
-  rw [List.append_assoc]
-  exact decSCFields_enc sc h _
+    (hl : (encSCFields sc ++ suf).length ≤ max31) (r : Bytes) :
+    (decSC (encSC sc suf ++ r)).out = .ok (sc, suf) r := by
+  unfold decSC encSC
+  exact readExt_enc _ _ _ _ _ (decSCFields_enc sc h _) hl
 
 /-! ### inputs -/
 
 def WFTyped : TypedInput → Prop
   | .issuance nonce amount assetDef vm prog args =>
     nonce.length ≤ max31 ∧ amount ≤ max63 ∧ assetDef.length ≤ max31 ∧ vm ≤ max63 ∧ prog.length ≤ max31 ∧ WFList args
-  | .spend sc suf args => WFSC sc ∧ (encSCFields sc ++ suf ++ suf).length ≤ max31 ∧ WFList args
+  | .spend sc suf args => WFSC sc ∧ (encSCFields sc ++ suf).length ≤ max31 ∧ WFList args
   | .coinbase arb => arb.length ≤ max31
-  | .veto sc suf vote args => WFSC sc ∧ (encSCFields sc ++ suf ++ suf).length ≤ max31 ∧ vote.length ≤ max31 ∧ WFList args
-
-/-- what decoding an encoded typed input yields today: commitment suffix doubled -/
-def dblTyped : TypedInput → TypedInput
-  | .spend sc suf args => .spend sc (suf ++ suf) args
-  | .veto sc suf vote args => .veto sc (suf ++ suf) vote args
-  | t => t
+  | .veto sc suf vote args => WFSC sc ∧ (encSCFields sc ++ suf).length ≤ max31 ∧ vote.length ≤ max31 ∧ WFList args
 
 def commitOf (H : Bytes → Bytes) : TypedInput → Commit
   | .issuance nonce amount assetDef vm prog _ => .issuance nonce (issuanceAssetID H assetDef vm prog) amount
-  | .spend sc suf _ => .spend sc (suf ++ suf)
+  | .spend sc suf _ => .spend sc suf
   | .coinbase arb => .coinbase arb
-  | .veto sc suf vote _ => .veto sc (suf ++ suf) vote
+  | .veto sc suf vote _ => .veto sc suf vote
 
 theorem readInType_cons (t : UInt8) (r : Bytes) (h : ¬ t > 3) : (chargeOk aTyped readInType (t :: r)).out = .ok t r := by
   rw [chargeOk_out]
@@ -107,7 +98,7 @@ theorem decCommit_enc (H : Bytes → Bytes) (hH : Hash32 H) (t : TypedInput) (h 
     rfl
 
 theorem decWitness_enc (H : Bytes → Bytes) (t : TypedInput) (h : WFTyped t) (r : Bytes) :
-    (decWitness H (commitOf H t) (encWitness t ++ r)).out = .ok (dblTyped t) r := by
+    (decWitness H (commitOf H t) (encWitness t ++ r)).out = .ok t r := by
   cases t with
   | issuance nonce amount assetDef vm prog args =>
     obtain ⟨h1, h2, h3, h4, h5, h6⟩ := h
@@ -130,40 +121,39 @@ theorem decWitness_enc (H : Bytes → Bytes) (t : TypedInput) (h : WFTyped t) (r
     rw [bind_ok (readVarstrList_enc _ h4 _)]
     rfl
 
+/-- a well-formed input: asset version 1 with a typed input (an input of another asset version
+    is no longer decodable) -/
 def WFInput (H : Bytes → Bytes) (i : TxInput) : Prop :=
-  i.assetVersion ≤ max63 ∧
+  i.assetVersion = 1 ∧
   match i.typed with
-  | some t => i.assetVersion = 1 ∧ WFTyped t ∧ (encCommitment H t ++ i.commitmentSuffix).length ≤ max31 ∧
+  | some t => WFTyped t ∧ (encCommitment H t ++ i.commitmentSuffix).length ≤ max31 ∧
       (encWitness t ++ i.witnessSuffix).length ≤ max31
-  | none => i.assetVersion ≠ 1 ∧ i.commitmentSuffix.length ≤ max31 ∧ i.witnessSuffix.length ≤ max31
+  | none => False
 
-def dblInput (i : TxInput) : TxInput := { i with typed := i.typed.map dblTyped }
+theorem WFInput.typed_isSome {H : Bytes → Bytes} {i : TxInput} (h : WFInput H i) : i.typed.isSome = true := by
+  obtain ⟨_, h⟩ := h
+  cases ht : i.typed with
+  | none => rw [ht] at h; exact h.elim
+  | some t => rfl
 
 theorem decInput_enc (H : Bytes → Bytes) (hH : Hash32 H) (i : TxInput) (h : WFInput H i) (r : Bytes) :
-    (decInput H (encInput H i ++ r)).out = .ok (dblInput i) r := by
+    (decInput H (encInput H i ++ r)).out = .ok i r := by
   obtain ⟨av, typed, cs, ws⟩ := i
   obtain ⟨hav, h⟩ := h
   unfold decInput encInput
   cases typed with
-  | none =>
-    obtain ⟨h1, h2, h3⟩ := h
-    simp only at h1 h2 h3 hav
-    simp only [List.append_assoc]
-    rw [bind_ok (readVarint63_put _ hav _)]
-    rw [bind_ok (readExt_enc _ [] cs none _ (by rw [if_pos h1]; rfl) (by simpa using h2))]
-    simp only
-    rw [bind_ok (readExt_enc _ [] ws none _ (by rfl) (by simpa using h3))]
-    rfl
+  | none => exact h.elim
   | some t =>
-    obtain ⟨h1, h2, h3, h4⟩ := h
-    simp only at h1 h2 h3 h4 hav
-    subst h1
+    obtain ⟨h2, h3, h4⟩ := h
+    simp only at hav h2 h3 h4
+    subst hav
     simp only [if_true, List.append_assoc]
-    rw [bind_ok (readVarint63_put _ hav _)]
+    rw [bind_ok (readVarint63_put _ (by decide) _)]
+    rw [if_neg (by simp)]
     rw [bind_ok (readExt_enc _ (encCommitment H t) cs (some (commitOf H t)) _
       (by rw [if_neg (by simp)]; rw [bind_ok (decCommit_enc H hH t h2 cs)]; rfl) h3)]
     simp only
-    rw [bind_ok (readExt_enc _ (encWitness t) ws (some (dblTyped t)) _
+    rw [bind_ok (readExt_enc _ (encWitness t) ws (some t) _
       (by rw [bind_ok (decWitness_enc H t h2 ws)]; rfl) h4)]
     rfl
 
@@ -253,10 +243,10 @@ structure WFTx (H : Bytes → Bytes) (tx : TxData) : Prop where
   ins : ∀ i ∈ tx.inputs, WFInput H i
   outs : ∀ o ∈ tx.outputs, WFOutput o
 
-/-- what decoding the encoding of `tx` yields: recorded size = encoded length, spend/veto
-    commitment suffixes doubled -/
+/-- what decoding the encoding of `tx` yields: the same value with the recorded size set to
+    the encoded length -/
 def canonTx (H : Bytes → Bytes) (tx : TxData) : TxData :=
-  { tx with serializedSize := (encTx H tx).length, inputs := tx.inputs.map dblInput }
+  { tx with serializedSize := (encTx H tx).length }
 
 theorem decTx_enc (H : Bytes → Bytes) (hH : Hash32 H) (tx : TxData) (h : WFTx H tx) (r : Bytes) :
     (decTx H (encTx H tx ++ r)).out = .ok (canonTx H tx) r := by
@@ -269,7 +259,7 @@ theorem decTx_enc (H : Bytes → Bytes) (hH : Hash32 H) (tx : TxData) (h : WFTx 
   rw [henc, bind_ok (readByte_cons _ _), if_neg (by decide)]
   rw [bind_ok (readVarint63_put _ h.version _), bind_ok (readVarint63_put _ h.timeRange _),
     bind_ok (readVarint31_put _ h.nIn _)]
-  rw [bind_ok (readN_enc' _ (decInput H) (encInput H) dblInput tx.inputs _
+  rw [bind_ok (readN_enc _ (decInput H) (encInput H) tx.inputs _
     (fun i hi r => decInput_enc H hH i (h.ins i hi) r))]
   rw [bind_ok (readVarint31_put _ h.nOut _)]
   rw [bind_ok (readN_enc _ decOutput encOutput tx.outputs _
@@ -309,7 +299,7 @@ theorem decSupLinks_enc (l : List SupLink) (hn : l.length ≤ max31) (h : ∀ s 
     (decSupLinks (encSupLinks l ++ r)).out = .ok l r := by
   unfold decSupLinks encSupLinks
   simp only [List.append_assoc]
-  rw [bind_ok (readVarint31_put _ hn _), bind_ok (tick_out _ _)]
+  rw [bind_ok (readVarint31_put _ hn _)]
   exact readN_enc _ decSupLink encSupLink l r (fun s hs r => decSupLink_enc s (h s hs) r)
 
 structure WFHeader (h : BlockHeader) : Prop where
@@ -356,23 +346,25 @@ theorem decHeader_enc2 (h : BlockHeader) (r : Bytes) :
 
 def AllTyped (tx : TxData) : Prop := ∀ i ∈ tx.inputs, i.typed.isSome = true
 
+theorem WFTx.allTyped {H : Bytes → Bytes} {tx : TxData} (h : WFTx H tx) : AllTyped tx :=
+  fun i hi => (h.ins i hi).typed_isSome
+
 theorem mapTxPanics_canon (H : Bytes → Bytes) (tx : TxData) (h : AllTyped tx) : mapTxPanics (canonTx H tx) = false := by
   unfold mapTxPanics canonTx
-  simp only [List.any_eq_false, List.mem_map]
-  rintro i ⟨j, hj, rfl⟩
-  have := h j hj
-  unfold dblInput
-  cases hjt : j.typed with
+  simp only [List.any_eq_false]
+  intro i hi
+  have := h i hi
+  cases hjt : i.typed with
   | none => rw [hjt] at this; simp at this
   | some t => simp
 
-theorem decBlockTx_enc (H : Bytes → Bytes) (hH : Hash32 H) (tx : TxData) (h : WFTx H tx) (ht : AllTyped tx) (r : Bytes) :
+theorem decBlockTx_enc (H : Bytes → Bytes) (hH : Hash32 H) (tx : TxData) (h : WFTx H tx) (r : Bytes) :
     (decBlockTx H (encTx H tx ++ r)).out = .ok (canonTx H tx) r := by
   unfold decBlockTx decBlockTxWith
   rw [bind_ok (decTx_enc H hH tx h r)]
   have : (mapTxD (canonTx H tx) r).out = .ok () r := by
     unfold mapTxD
-    rw [mapTxPanics_canon H tx ht]
+    rw [mapTxPanics_canon H tx h.allTyped]
     rfl
   rw [bind_ok this]
   rfl
@@ -380,7 +372,7 @@ theorem decBlockTx_enc (H : Bytes → Bytes) (hH : Hash32 H) (tx : TxData) (h : 
 structure WFBlock (H : Bytes → Bytes) (b : Block) : Prop where
   header : WFHeader b.header
   nTx : b.txs.length ≤ max31
-  txs : ∀ t ∈ b.txs, WFTx H t ∧ AllTyped t
+  txs : ∀ t ∈ b.txs, WFTx H t
 
 theorem decBlock_enc3 (H : Bytes → Bytes) (hH : Hash32 H) (b : Block) (wf : WFBlock H b) (r : Bytes) :
     (decBlock H (encBlock H 3 b ++ r)).out = .ok (3, ⟨b.header, b.txs.map (canonTx H)⟩) r := by
@@ -391,7 +383,7 @@ theorem decBlock_enc3 (H : Bytes → Bytes) (hH : Hash32 H) (b : Block) (wf : WF
   simp only
   rw [if_neg (by decide), bind_ok (readVarint31_put _ wf.nTx _)]
   rw [bind_ok (readN_enc' _ (decBlockTxWith mapTxD H) (encTx H) (canonTx H) b.txs r
-    (fun t ht r => decBlockTx_enc H hH t (wf.txs t ht).1 (wf.txs t ht).2 r))]
+    (fun t ht r => decBlockTx_enc H hH t (wf.txs t ht) r))]
   rfl
 
 theorem decBlock_enc1 (H : Bytes → Bytes) (b : Block) (wf : WFHeader b.header) (r : Bytes) :
@@ -405,7 +397,7 @@ theorem decBlock_enc1 (H : Bytes → Bytes) (b : Block) (wf : WFHeader b.header)
   rfl
 
 theorem decBlock_enc2 (H : Bytes → Bytes) (hH : Hash32 H) (b : Block) (hn : b.txs.length ≤ max31)
-    (wf : ∀ t ∈ b.txs, WFTx H t ∧ AllTyped t) (r : Bytes) :
+    (wf : ∀ t ∈ b.txs, WFTx H t) (r : Bytes) :
     (decBlock H (encBlock H 2 b ++ r)).out = .ok (2, ⟨BlockHeader.zero, b.txs.map (canonTx H)⟩) r := by
   unfold decBlock decBlockWith encBlock
   rw [if_neg (by decide)]
@@ -414,7 +406,7 @@ theorem decBlock_enc2 (H : Bytes → Bytes) (hH : Hash32 H) (b : Block) (hn : b.
   simp only
   rw [if_neg (by decide), bind_ok (readVarint31_put _ hn _)]
   rw [bind_ok (readN_enc' _ (decBlockTxWith mapTxD H) (encTx H) (canonTx H) b.txs r
-    (fun t ht r => decBlockTx_enc H hH t (wf t ht).1 (wf t ht).2 r))]
+    (fun t ht r => decBlockTx_enc H hH t (wf t ht) r))]
   rfl
 
 /-! ### hex text layer -/
